@@ -86,7 +86,7 @@ func checkC10(ctx *Ctx, r *Report, tier string) {
 	}
 	r.Counts["roots"] = nRoots
 	r.Counts["summaries"] = e.nSummar
-	r.floor("F1", 90)
+	r.floor("F1", 60)
 	r.expectControl("F1", "verifCtlImpure")
 	r.expectControl("F1", "verifCtlRLockWriter")
 	r.expectControl("F1-lockset", "verifCtlUnlockedReader")
